@@ -57,8 +57,8 @@ pub struct C12 {
     ucg: Ucg,
 }
 
-const NAME_START: [&str; 12] = ["a", "b", "item", "Node", "_x", "é", "日本", "Ωmega", "tag", "x", "k", "row"];
-const NAME_REST: [&str; 8] = ["", "1", "-b", ".c", "_d", "é", "·", "9"];
+const NAME_START: [&str; 16] = ["a", "b", "item", "Node", "_x", "é", "日本", "Ωmega", "tag", "x", "k", "row", "Łódź", "položka", "değer", "ɐʃ"];
+const NAME_REST: [&str; 10] = ["", "1", "-b", ".c", "_d", "é", "·", "9", "ł", "ő"];
 const PREFIXES: [&str; 4] = ["p", "ns1", "q", "é"];
 const URIS: [&str; 7] = [
     "http://example.org",
@@ -150,6 +150,10 @@ impl C12 {
             _ => {
                 let n = 1 + t.choice(3);
                 let mut out: Vec<(String, Option<String>)> = vec![];
+                if ns.is_none() && t.chance(1, 8) {
+                    // the default namespace declared through attrs instead of ns
+                    out.push(("xmlns".to_string(), Some(URIS[0].to_string())));
+                }
                 for _ in 0..n {
                     let mut an = gen_ncname(t);
                     if !scope.is_empty() && t.chance(1, 5) {
@@ -435,10 +439,16 @@ fn expected_tree(n: &Node) -> Option<XNode> {
                 Some((p, u)) => vec![(format!("xmlns:{}", p), u.clone())],
                 None => vec![],
             };
-            let at: Vec<(String, String)> = attrs
+            let mut at: Vec<(String, String)> = attrs
                 .as_ref()
                 .map(|a| a.iter().filter_map(|(k, v)| v.clone().map(|v| (k.clone(), v))).collect())
                 .unwrap_or_default();
+            // a default namespace declared as an ordinary attribute is a declaration all the same
+            let mut decls = decls;
+            if let Some(i) = at.iter().position(|(k, _)| k == "xmlns") {
+                let (k, v) = at.remove(i);
+                decls.push((k, v));
+            }
             let mut ch: Vec<XNode> = vec![];
             for c in children.as_deref().unwrap_or(&[]) {
                 if let Some(x) = expected_tree(c) {
